@@ -26,6 +26,9 @@ def run(chk):
     from .c16b import r16h
 
     chk.attempt(r16h, chk, thorough=chk.tier == 'thorough')
+    from .c16b import r16i
+
+    chk.attempt(r16i, chk)
 
 
 def eval_append(chk, typ, val, context, prefix, namespaces=None):
